@@ -208,12 +208,21 @@ class SDBuilder:
                 return d(st.sampled_from(self.pool[key]))
             return self.memo[key]
         if len(scope) == 1:
-            l = self.leaf(scope[0], K)
             if self.decisions is not None:
                 if self.decide(scope, "leaf_sum", st.booleans()):
-                    l = self.sum_over([l], K)
+                    # a (mixture of) input layer(s) with their own unit count below a sum layer: the unit count
+                    # and the number of mixed input layers are free per circuit and per variable
+                    Kl = d(st.integers(1, self.max_K)) if d(st.booleans()) else K
+                    nl = d(st.integers(1, self.max_reps))
+                    l = self.sum_over([self.leaf(scope[0], Kl) for _ in range(nl)], K)
+                else:
+                    l = self.leaf(scope[0], K)
             elif d(st.floats(0, 1)) < self.leaf_sum_p:
-                l = self.sum_over([l], K)
+                Kl = d(st.integers(1, self.max_K)) if d(st.integers(0, 2)) == 0 else K
+                nl = 2 if d(st.integers(0, 3)) == 0 else 1
+                l = self.sum_over([self.leaf(scope[0], Kl) for _ in range(nl)], K)
+            else:
+                l = self.leaf(scope[0], K)
         elif self.decisions is not None:
             l = self._build_skeleton(scope, K)
         else:
@@ -230,12 +239,14 @@ class SDBuilder:
                     p = self.add({"t": "kro", "in": ch})
                     p = self.sum_over([p], K)
                 else:
-                    ch = [self.build(b, K) for b in blocks]
+                    with_sum = d(st.booleans())
+                    Kp = d(st.integers(1, self.max_K)) if with_sum and d(st.integers(0, 2)) == 0 else K
+                    ch = [self.build(b, Kp) for b in blocks]
                     p = self.add({"t": "had", "in": ch})
-                    if d(st.booleans()):
+                    if with_sum:
                         ph = p
                         p = self.sum_over([p], K)
-                        if self.share and d(st.integers(0, 3)) == 0:
+                        if Kp == K and self.share and d(st.integers(0, 3)) == 0:
                             prods.append(ph)  # the product feeds both its own sum and the sum above
                 prods.append(p)
             if len(prods) == 1:
@@ -259,6 +270,7 @@ class SDBuilder:
         sum_after = True if use_kron else self.decide(scope, "sum_after", st.booleans())
         top = self.decide(scope, "top", st.booleans())
         nrep = d(st.integers(1, self.max_reps)) if top else 1
+        Kp = d(st.integers(1, self.max_K)) if (sum_after or top) and d(st.booleans()) else K
         prods = []
         for _ in range(nrep):
             order = d(st.permutations(list(range(nb))))
@@ -268,7 +280,9 @@ class SDBuilder:
                 Kin = d(st.integers(1, min(self.max_K, kin_max)))
                 p = self.add({"t": "kro", "in": [self.build(b, Kin) for b in bl]})
             else:
-                p = self.add({"t": "had", "in": [self.build(b, K) for b in bl]})
+                # unit counts may differ from region to region: whenever a sum layer sits above the product,
+                # the product (and the regions below it) may use another number of units
+                p = self.add({"t": "had", "in": [self.build(b, Kp) for b in bl]})
             if sum_after:
                 p = self.sum_over([p], K)
             prods.append(p)
